@@ -54,64 +54,76 @@ Definition obs (s : xseq) : string :=
 
 (* searching builtins of sequence.rs: nth (forward, or backward for a negative match index), take_while, skip_until;
    predicates from a small closed family over integer elements *)
-Inductive pred := PGt (t : Z) | PMod (m r : Z).
+Inductive pred := PGt (t : Z) | PLt (t : Z) | PMod (m r : Z).
 Definition papply (p : pred) (e : elem) : res bool :=
   match p, e with
   | PGt t, EI x => Val (t <? x)
+  | PLt t, EI x => Val (x <? t)
   | PMod m r, EI x => if m =? 0 then Err "Modulo by zero" else Val (x mod m =? r)
   | _, _ => Stuck "predicate applied to a non-integer"
   end.
 
 (* the scans are lazy: elements are produced one by one and the scan stops at the first decisive one
-   (fuel = the finite length; the generator only applies them to finite sequences) *)
-Fixpoint nth_fwd (s : xseq) (i : N) (fuel : nat) (left : Z) (p : pred) : res (option elem) :=
-  match fuel with
-  | O => Val None
-  | S f => do x <- get s i; do b <- papply p x;
-           if b then (if left =? 0 then Val (Some x) else nth_fwd s (i + 1) f (left - 1) p)
-           else nth_fwd s (i + 1) f left p
-  end.
-Fixpoint nth_bwd (s : xseq) (i : N) (fuel : nat) (left : Z) (p : pred) : res (option elem) :=
-  match fuel with
-  | O => Val None
-  | S f => do x <- get s (i - 1); do b <- papply p x;
-           if b then (if left =? 0 then Val (Some x) else nth_bwd s (i - 1) f (left - 1) p)
-           else nth_bwd s (i - 1) f left p
+   (fuel = the finite length).  [budget] is the search limit (maximum_search): each loop iteration consumes one unit
+   BEFORE the predicate is applied; an exhausted budget is the MaximumSearch violation *)
+Definition spend (budget : option N) : res (option N) :=
+  match budget with
+  | None => Val None
+  | Some 0%N => Viol VSearch
+  | Some b => Val (Some (b - 1)%N)
   end.
 
-Definition x_nth (s : xseq) (n : Z) (p : pred) : res (option elem) :=
+Fixpoint nth_fwd (budget : option N) (s : xseq) (i : N) (fuel : nat) (left : Z) (p : pred) : res (option elem) :=
+  match fuel with
+  | O => Val None
+  | S f => do b' <- spend budget; do x <- get s i; do b <- papply p x;
+           if b then (if left =? 0 then Val (Some x) else nth_fwd b' s (i + 1) f (left - 1) p)
+           else nth_fwd b' s (i + 1) f left p
+  end.
+Fixpoint nth_bwd (budget : option N) (s : xseq) (i : N) (fuel : nat) (left : Z) (p : pred) : res (option elem) :=
+  match fuel with
+  | O => Val None
+  | S f => do b' <- spend budget; do x <- get s (i - 1); do b <- papply p x;
+           if b then (if left =? 0 then Val (Some x) else nth_bwd b' s (i - 1) f (left - 1) p)
+           else nth_bwd b' s (i - 1) f left p
+  end.
+
+Definition x_nth_lim (budget : option N) (s : xseq) (n : Z) (p : pred) : res (option elem) :=
   do l <- len s;
   match l with
   | None => Err "infinite (not generated)"
-  | Some ln => if n <? 0 then nth_bwd s ln (N.to_nat ln) (- n - 1) p else nth_fwd s 0 (N.to_nat ln) n p
+  | Some ln => if n <? 0 then nth_bwd budget s ln (N.to_nat ln) (- n - 1) p else nth_fwd budget s 0 (N.to_nat ln) n p
   end.
+Definition x_nth := x_nth_lim None.
 
-Fixpoint first_idx (s : xseq) (i : N) (fuel : nat) (want : bool) (p : pred) : res (option N) :=
+Fixpoint first_idx (budget : option N) (s : xseq) (i : N) (fuel : nat) (want : bool) (p : pred) : res (option N) :=
   match fuel with
   | O => Val None
-  | S f => do x <- get s i; do b <- papply p x;
-           if Bool.eqb b want then Val (Some i) else first_idx s (i + 1) f want p
+  | S f => do b' <- spend budget; do x <- get s i; do b <- papply p x;
+           if Bool.eqb b want then Val (Some i) else first_idx b' s (i + 1) f want p
   end.
 
-Definition x_take_while (s : xseq) (p : pred) : res xseq :=
+Definition x_take_while_lim (budget : option N) (s : xseq) (p : pred) : res xseq :=
   do ln <- len s;
   match ln with
   | None => Err "infinite (not generated)"
   | Some n =>
-      do i <- first_idx s 0 (N.to_nat n) false p;
+      do i <- first_idx budget s 0 (N.to_nat n) false p;
       do r <- slice s 0 (match i with Some k => Some k | None => ln end);
       Val (match r with None => s | Some x => x end)
   end.
+Definition x_take_while := x_take_while_lim None.
 
-Definition x_skip_until (s : xseq) (p : pred) : res xseq :=
+Definition x_skip_until_lim (budget : option N) (s : xseq) (p : pred) : res xseq :=
   do ln <- len s;
   match ln with
   | None => Err "infinite (not generated)"
   | Some n =>
-      do i <- first_idx s 0 (N.to_nat n) true p;
+      do i <- first_idx budget s 0 (N.to_nat n) true p;
       do r <- slice s (match i with Some k => k | None => n end) None;
       Val (match r with None => s | Some x => x end)
   end.
+Definition x_skip_until := x_skip_until_lim None.
 
 Inductive sop :=
 | OArr (l : list Z) | ORange (a b c : Z) | OCount | OCount2 (a b : Z)
